@@ -76,7 +76,21 @@ def build_jobs(tier, seed):
             for n, i in enumerate(inits) for s in (None, 'global')]
 
 
+def _isolated(fn, *args):
+    """fn(*args) in a process forked for this call alone: the commands under check run in-process, and whatever a command may keep in
+    module-level state must not leak from one exploration into the next (pool workers are reused)"""
+    from bounded import c20_web
+    try:
+        return c20_web.forked(fn, *args)
+    except Exception as exc:
+        raise CheckerDefect(str(exc)[-1500:])
+
+
 def _explore(job):
+    return _isolated(_explore_here, job)
+
+
+def _explore_here(job):
     """all command sequences up to `depth` from one initial configuration in one scope, as a graph over world states"""
     init, scope, depth, exact, sample_last, seed = job
     rnd = random.Random(seed)
@@ -157,25 +171,51 @@ def _explore(job):
 
 
 def _run_sequence(init, scope, seq):
-    """plain re-execution (no memoisation) of one command sequence; returns [(kind, text, step)]"""
+    """plain re-execution (no memoisation) of one command sequence in a fresh process; returns [(kind, text, step)].
+    `scope` is one scope for all commands, or a list with one scope per command (mixed-scope sessions)"""
+    return _isolated(_run_sequence_here, init, scope, seq)
+
+
+def _run_sequence_here(init, scope, seq):
     from bounded import c18_world as W
     world = W.World(init)
     out = []
+    scopes = list(scope) if isinstance(scope, (list, tuple)) else [scope] * len(seq)
     try:
         obs = [world.observe()]
         for i, cmd in enumerate(seq):
             if cmd not in W.COMMANDS:
                 raise CheckerDefect('unknown command %r' % (cmd,))
-            exc = world.run(cmd, scope)
+            sc = scopes[i]
+            exc = world.run(cmd, sc)
             obs.append(world.observe())
-            for kind, text in W.judge(obs[-2], obs[-1], cmd, scope, exc):
+            for kind, text in W.judge(obs[-2], obs[-1], cmd, sc, exc):
                 out.append((kind, text, i))
-            if i and seq[i - 1] == cmd and cmd.startswith('enable:') and W.semantic_key(obs[-2]) != W.semantic_key(obs[-1]):
+            if i and seq[i - 1] == cmd and scopes[i - 1] == sc and cmd.startswith('enable:') and W.semantic_key(obs[-2]) != W.semantic_key(obs[-1]):
                 out.append(('not-idempotent', 'nbdime %s%s run a second time changes the configuration again: %s'
-                            % (cmd, ' --' + scope if scope else '', W.describe_diff(obs[-2], obs[-1])), i))
+                            % (cmd, ' --' + sc if sc else '', W.describe_diff(obs[-2], obs[-1])), i))
         return out
     finally:
         world.close()
+
+
+def _mixed_job(job):
+    """sessions that mix repository-scope and --global commands in ONE process (a set-up script, a notebook): every command is judged
+    with its own scope"""
+    from bounded import c18_world as W
+    seed, n = job
+    rnd = random.Random(seed)
+    out, cnt = [], 0
+    for k in range(n):
+        init = W.random_init(rnd) if k % 2 else W.make_init()
+        seq = [rnd.choice(W.COMMANDS) for _ in range(rnd.randint(2, 4))]
+        scopes = [rnd.choice([None, 'global']) for _ in seq]
+        if len(set(scopes)) == 1:
+            scopes[-1] = 'global' if scopes[0] is None else None
+        cnt += len(seq)
+        for kind, text, i in _run_sequence(init, scopes, seq):
+            out.append((kind, text, init, scopes[:i + 1], seq[:i + 1]))
+    return cnt, out
 
 
 def replay_case(where):
@@ -206,6 +246,16 @@ def run_bounded(res):
             rank = (len(seq), _complexity(r['init']))
             if kind not in best or rank < best[kind][0]:
                 best[kind] = (rank, text, seq, r['init'], r['scope'])
+    # mixed-scope sessions (plain sequences, one fresh process each)
+    nmixed = 0
+    for cnt, fails in common.pmap(_mixed_job, [(res.seed * 7331 + s, 6 if res.tier == 'quick' else 30) for s in range(16)]):
+        nmixed += cnt
+        res.evaluations += cnt
+        for kind, text, init, scopes, seq in fails:
+            rank = (len(seq), _complexity(init))
+            if kind not in best or rank < best[kind][0]:
+                best[kind] = (rank, text, seq, init, scopes)
+    res.coverage['mixed_scope_command_executions'] = nmixed
     for kind in sorted(best):
         _, text, seq, init, scope = best[kind]
         fid = next((f for p, f in KNOWN.items() if kind.startswith(p)), None)
@@ -218,8 +268,12 @@ def run_bounded(res):
         if not again:
             raise CheckerDefect('failure %r found by the state-graph search does not reproduce as the plain sequence %r from %s'
                                 % (kind, seq, W.init_label(init)))
+        if isinstance(scope, (list, tuple)):
+            how = ' (one process; scope per command: %s)' % ', '.join(sc or 'repository' for sc in scope)
+        else:
+            how = ' (--global, cwd = the repository)' if scope else ' (repository scope)'
         res.violation('initial configuration %s; commands%s: %s -- %s [%s]' % (
-            W.init_label(init), ' (--global, cwd = the repository)' if scope else ' (repository scope)', ' ; '.join(seq), again[0][1], kind),
+            W.init_label(init), how, ' ; '.join(seq), again[0][1], kind),
             dict(where, replay_kind='call', module='checks.c18_bounded', function='replay_case', args=[where]))
     res.coverage.update({'graphs': len(jobs), 'command_executions_judged': totals['transitions'], 'idempotency_pairs': totals['pairs'],
                          'sequences_represented': totals['sequences'], 'states': totals['states']})
